@@ -163,6 +163,14 @@ PROPS.update({
         kani=dict(quick=['mask_iupac', 'mask_dna', 'complement_masked_dna', 'complement_masked_iupac', 'codec_contract_masked_dna', 'codec_contract_masked_iupac'], profiles=['debug', 'release'], quick_profiles=['debug']),
         standin=True,
     ),
+    'C15': dict(
+        level='proof',
+        level_text='Verus proves CodonTable::from_map, try_to_amino and try_to_codon generically in both codecs against a HashMap stand-in whose iteration yields every entry exactly once in an UNSPECIFIED order: the loop invariant is over the set of entries seen so far, so every iteration order is covered at once; postcondition inverse_ok: the inverse table holds Some(codon) exactly for amino acids with a unique preimage (same content), None exactly for two or more, and no entry for none; lookups translate a key codon presented as any slice (key view = bit content) and report InvalidCodon / AmbiguousCodon / InvalidAmino exactly as the property states',
+        level_note=B_NOTE + '; additionally ASSUMES the contracts of std HashMap (new/contains_key/insert/get/iteration) stated modulo the key view - justified by the Hash/Eq/Borrow agreement proved in C02 - and Result::copied; `codon.into()` on the error path is glue (contract only); a bounded stand-in with repeated construction (fresh RandomState) cross-checks on the real crate',
+        technique='deductive verification (Verus) with an order-agnostic prophetic iterator spec for HashMap',
+        verus=[dict(name='c15', mode='T', roots=['translation.codontable', 'translation.lookup', 'translation.try_to_amino', 'seq.borrow', 'slice.hash', 'seq.hash', 'slice.eq'])],
+        standin=True,
+    ),
     'C17': dict(
         level='other',
         level_text='complete per declaration, bounded over declarations: tools/gen_c17.py writes enum declarations (a fixed boundary set: 2 and 40 variants, widths 1/3/7/8, default width for max discriminant 1..254 incl. every power-of-two boundary, binary/hex/byte literals, alternatives, display characters, over-wide declared width; plus VERIF_SEED-random ones, quick 12 / thorough 60); the REAL #[derive(Codec)] expands them when the harness crate is compiled; the codec contract (width, to_bits = discriminant, decoders accept exactly discriminants and alternatives, to_char / try_from_ascii, everything else refused, items() in declaration order) is proved by Kani for all 256 bytes per declaration against an oracle computed from the declaration text by the generator (independent of the macro), and re-executed natively; malformed declarations are compiled alone and must be refused with the derive own diagnostic',
